@@ -407,6 +407,14 @@ func ordItems(texts ...string) []SDLItem {
 }
 
 var handOrderItems = [][]SDLItem{
+	// a field narrowed to one implementer of an interface that another INTERFACE implements too
+	ordItems("interface Node { id: ID }", "interface Named implements Node { id: ID name: String }", "type User implements Node { id: ID }", "interface Holder { item: Node items: [Node!] }",
+		"type Box implements Holder { item: User items: [User!] }", "type Query { b: Box n: Named }"),
+	ordItems("union Pet = Cat | Dog", "type Cat implements Animal { n: Int }", "interface Animal { n: Int }", "type Dog implements Animal { n: Int }", "interface Owner { pet: Animal any: Pet }",
+		"type Person implements Owner { pet: Dog any: Cat }", "type Query { p: Person }"),
+	// a directive definition whose argument carries another directive defined elsewhere
+	ordItems("directive @range(min: Int = 0 @meta(note: \"m\"), max: Int) on FIELD_DEFINITION", "directive @meta(note: String) on ARGUMENT_DEFINITION | FIELD_DEFINITION",
+		"type Query { a: Int @range(max: 3) @meta b(x: Int @meta(note: \"x\")): Int }", "directive @third(a: Int @meta) on OBJECT", "extend type Query @third"),
 	ordItems("extend type Review implements Entity { id: ID }", "extend interface Entity { id: ID }", "type Query { r: Review e: Entity }"),
 	ordItems("extend union SearchResult = Product", "extend type Product { id: ID }", "union SearchResult = Query", "type Query { s: SearchResult }"),
 	ordItems("extend type Review implements Entity & Node { id: ID }", "extend interface Entity implements Node { id: ID }", "extend interface Node { id: ID }", "extend type Review { body: String }", "type Query { r: Review }"),
